@@ -145,6 +145,19 @@ CHECKS["C13"] = dict(
     technique="deterministic simulation with fault injection: seeded swarm search over change/priming/report interleavings, subscriber misbehaviour and network faults; eventual-consistency and timing oracles over the recorded history",
 )
 
+CHECKS["C12"] = dict(
+    level="fault_enumeration",
+    text="One real node (Matter + Interaction Model + ICD state) on the simulated store and network runs a tape-chosen script: send n group data messages "
+         "(Exchange::initiate_group + send through the real transport; counter values read off the wire), emit n events (numbers as handed to the "
+         "application), run n Check-In batches the way the interface tells an application to (load_counter, persist_counter, then next_counter / advance_counter; "
+         "a failed store is repeated before the next batch), restart. The store is seeded with tape-chosen boundaries (absent, random, next to the wrap of the "
+         "28-bit / 32-bit range, epoch multiples); faults are placed at individual mutating store operations: crash before / after the operation, and in one "
+         "family an error return. Oracles: no value of a counter is used twice over the lifetime of the store; at the instant a value is used the boundary held "
+         "durably by the store covers it. Limits: the Check-In message itself is not sent (needs mDNS); the 64-bit event number wrap is not seeded.",
+    design="DESIGN.md §4 C12",
+    technique="deterministic simulation with fault injection: crash / store-error placement at individual store operations + restart, uniqueness and durable-coverage oracles over the values used",
+)
+
 CHECKS["C01"] = dict(
     level="exploration",
     text="Real device commissioned by controller X; the device is crashed/restarted 2-5 times so that X runs new CASE handshakes (resumption first, "
